@@ -532,6 +532,12 @@ func reachesNumberSink(v ssa.Value, seen map[ssa.Value]bool, depth int) bool {
 				if _, n := namedOf(fa.X.Type()); n == "rangeValue" {
 					return true
 				}
+				// the value of an integer literal: a numeric field of a scanner/parser structure
+				if pp, _ := namedOf(fa.X.Type()); strings.HasSuffix(pp, "/syntax") {
+					if bt, ok := deref(fa.Type()).Underlying().(*types.Basic); ok && bt.Info()&types.IsInteger != 0 {
+						return true
+					}
+				}
 			}
 		case *ssa.MakeInterface:
 			if _, n := namedOf(x.X.Type()); n == "Duration" || n == "Time" {
